@@ -1853,7 +1853,9 @@ LEVEL_NOTE = ('Validated, not proved: the O(h^2) rate; non-integer powers, Point
               'complex scalars/products, the remaining ~20 functionals, weighted/discretised spaces (theorems are for '
               'rn/cn with constant/array weightings and 1-d uniform_discr), finite-difference operators with pad_const -- all '
               'by central-difference probes on the '
-              'real objects. Exact arithmetic: rounding out of scope. Six open findings and four repaired ones '
+              'real objects; also probed: every ufunc in its operator (rn, cn) and functional (R, C) variants at generic '
+              'points, and that D = derivative(x) is unchanged by later calls on the operator and on D (constructors with '
+              'user scratch elements, reference-keeping leaves). Exact arithmetic: rounding out of scope. Six open findings and four repaired ones '
               '(findings/C06.json). Axioms: classical reals, funext, classic as printed.')
 TECHNIQUE = ('Coq proof by structural induction over a deep embedding of operator arithmetic (nested lists for block '
              'operators), with a curve-based (Hadamard) and an epsilon-delta (Frechet, in norm) differentiability calculus on R^n '
